@@ -74,6 +74,9 @@ func Topo(kind string, shape PathShape, goFunc bool, root string, n int) *spec.S
 			if strings.HasSuffix(o, "/") { // a directory output
 				o = strings.TrimSuffix(o, "/")
 				od = append(od, spec.PortDecl{Name: o, Dir: true})
+			} else if strings.HasSuffix(o, "~") { // a streaming output
+				o = strings.TrimSuffix(o, "~")
+				od = append(od, spec.PortDecl{Name: o, Stream: true})
 			} else {
 				od = append(od, spec.PortDecl{Name: o})
 			}
@@ -113,6 +116,17 @@ func Topo(kind string, shape PathShape, goFunc bool, root string, n int) *spec.S
 		conn("src.out", "A.in")
 		conn("A.out", "B.in")
 		conn("A.res", "C.in")
+	case "streamtwo":
+		// a process with a streaming output and two file outputs, each with a consumer of its own
+		addSrc("src", n)
+		addProc("A", in, []string{"astream~", "bfile", "zfile"}, nil, nil, spec.KCmd)
+		addProc("B", in, []string{"out"}, nil, nil, spec.KCmd)
+		addProc("C", in, []string{"out"}, nil, nil, spec.KCmd)
+		addProc("D", in, []string{"out"}, nil, nil, spec.KCmd)
+		conn("src.out", "A.in")
+		conn("A.astream", "B.in")
+		conn("A.bfile", "C.in")
+		conn("A.zfile", "D.in")
 	case "fanin":
 		addSrc("src", 6)
 		addSrc("srb", 2)
